@@ -174,10 +174,11 @@ PLAN = {
     "C18": {
         "rule": "attribute table: all 4032 field tuples x every constructor order (<=24) + closure under every single constructor application + invalid arguments; "
                 "dispatch_get_global_queue: identifiers x 67 flag values, full cross product; distinct = distinct attribute objects + distinct global queues. "
-                "Scheduled half (harness spec): 5 hierarchy shapes x every key placement x 7 submission paths x assertion modes (406 programs), each under every schedule with <=k preemptions; "
-                "dispatch_get_specific must return the nearest level's value, dispatch_assert_queue must hold for every queue of the chain and dispatch_assert_queue_not / dispatch_assert_queue on the wrong queue must trap",
-        "bounds": {"quick": "4032 tuples x all orders, 475776 closure steps, 66601 identifiers x 67 flags; behavioural check of concurrency/inactive on 12 representative queues; spec programs k<=1",
-                   "thorough": "same attribute half; identifiers -2^24..2^24 plus boundary values x 67 flags (2.2e9 calls); spec programs k<=2"},
+                "Scheduled half (harness spec): 9 hierarchy shapes (serial/concurrent levels over a serial queue, a workloop or the main queue) x every key placement x 7 submission paths x assertion modes (770 programs), each under every schedule with <=k preemptions; "
+                "dispatch_get_specific must return the nearest level's value, dispatch_assert_queue must hold for every queue of the chain and dispatch_assert_queue_not / dispatch_assert_queue on the wrong queue must trap; harness specrace: 5 scenarios of 2 threads setting / replacing / removing / reading keys of one queue "
+                "(lazy allocation of the key list, destructors exactly once with the right value)",
+        "bounds": {"quick": "4032 tuples x all orders, 475776 closure steps, 66601 identifiers x 67 flags; behavioural check of concurrency/inactive on 12 representative queues; spec programs k<=1; specrace k<=1 (k=0 for the two largest)",
+                   "thorough": "same attribute half; identifiers -2^24..2^24 plus boundary values x 67 flags (2.2e9 calls); spec programs k<=2; specrace k<=1 (k<=2 for the racing first set)"},
         "assumptions": SEQ_ASSUME + SC_ASSUME,
         "parallel": {"quick": 3, "thorough": 3},
         "budget_s": {"quick": 150, "thorough": 900},
@@ -248,7 +249,10 @@ def _tasks_for(pid, tier):
         return sx("data_c13")
     if pid == "C18":
         sv = variants("spec")
-        return sx("attrs_c18") + ds("spec", 1 if q else 2, sv, jobs=2)
+        race = ds("specrace", 1, [0, 1, 3], jobs=6) + ds("specrace", 0 if q else 1, [2, 4], jobs=6)
+        if not q:
+            race += ds("specrace", 2, [0], jobs=8)
+        return sx("attrs_c18") + ds("spec", 1 if q else 2, sv, jobs=2) + race
     if pid == "C20":
         return sx("transform_c20")
     if pid == "C09":
